@@ -36,7 +36,11 @@ type RunPlan struct {
 	SignalsFromStep int  // signal messages emitted before the terminal message
 	NonFatalErrors  int  // error messages (neither step- nor server-fatal) emitted before the terminal message
 	StepFatal       bool // terminal message is a step-fatal error instead of work-done
-	ServerFatal     bool // instead of answering, the peer reports a server-fatal error and shuts down (as RunATPServer does)
+	// UnattributedFatalFirst: before the terminal message the peer sends a step-fatal error WITHOUT a run id (what
+	// RunATPServer does for a work-start it cannot attribute); the client fails every running step on it, so the
+	// terminal message that follows finds no waiting caller any more
+	UnattributedFatalFirst bool
+	ServerFatal            bool // instead of answering, the peer reports a server-fatal error and shuts down (as RunATPServer does)
 }
 
 // SentMsg records one message the peer wrote (in stream order; index 0 is the hello).
@@ -154,6 +158,10 @@ func (p *Peer) Run() {
 						MessageData: atp.ErrorMessage{Error: "the plugin is going down", StepFatal: true, ServerFatal: true}})
 					_ = p.In.Close() // stop reading; Run closes the output once all step threads are done
 					return
+				}
+				if plan.UnattributedFatalFirst {
+					_ = p.send("unattributed", "", atp.RuntimeMessage{MessageID: atp.MessageTypeError, RunID: "",
+						MessageData: atp.ErrorMessage{Error: "a step failed that cannot be attributed to a run", StepFatal: true}})
 				}
 				if plan.StepFatal {
 					_ = p.send("fatal", runID, atp.RuntimeMessage{MessageID: atp.MessageTypeError, RunID: runID,
